@@ -55,6 +55,7 @@ THEOREMS = [
     'C04_compose_translation_second', 'C04_lattice_filltr_fill',
     'C04_lattice_filltr_trcl', 'C04_frame_transform_torus_total',
     'C04_adjust_matrix_near_orthonormal', 'C04_adjust_matrix_idempotent',
+    'C04_trcl_cell', 'C04_transformation_law', 'C04_convert_law',
 ]
 TRUSTED = [
     'hand-written model coq/C04/Model.v (modelled, tied by execution only)',
